@@ -76,7 +76,11 @@ def source_sets(sc):
     silent2 = "zz-after-the-window-and-also-quite-long.log"
     with open(os.path.join(d1, silent2), "wb") as f:
         f.write(b"2023-03-11T00:00:00+00:00 src=S idx=0\n2023-03-11T00:00:01+00:00 src=S idx=1\n")
-    sets.append((d1, ["a.log", wide, "wtmp", "k.evtx", silent1, silent2], ["-b", "2023-03-10T03:49:43.570000+00:00"]))
+    # a name that would mean something to a formatter: per cent signs, braces, a backslash
+    pct = "rate%d 100%% {0} %Y\\n.log"
+    with open(os.path.join(d1, pct), "wb") as f:
+        f.write(b"2023-03-10T03:49:43.563+00:00 src=P idx=0\n2023-03-10T03:49:43.564+00:00 src=P idx=1\n  more of P\n")
+    sets.append((d1, ["a.log", wide, "wtmp", "k.evtx", silent1, silent2, pct], ["-b", "2023-03-10T03:49:43.570000+00:00"]))
     # S2: journal + text
     d2 = os.path.join(sc, "s2")
     os.makedirs(d2)
